@@ -180,6 +180,16 @@ class Rat:
                 return m[0][0]
         return None
 
+    def solve_atom(self):
+        """An atom x with self == x (found by cross-multiplication; no polynomial division needed)."""
+        a = self.single_atom()
+        if a is not None:
+            return a
+        for x in self.num.atoms():
+            if self.equals(Rat.atom(x)):
+                return x
+        return None
+
     def to_term(self) -> T:
         a = self.single_atom()
         if a is not None:
@@ -219,11 +229,13 @@ FUNC_ALIASES = {
     "numpy.floor": "floor", "math.floor": "floor",
     "numpy.clip": "clip", "numpy.maximum": "maximum", "numpy.minimum": "minimum",
     "numpy.transpose": "T", "numpy.squeeze": "squeeze", "numpy.ravel": "ravel",
-    "numpy.asarray": "asarray", "numpy.array": "array", "numpy.vstack": "vstack", "numpy.hstack": "hstack",
+    "numpy.asarray": "asarray", "numpy.array": "array", "numpy.atleast_1d": "atleast_1d", "numpy.atleast_2d": "atleast_2d",
+    "numpy.linalg.lstsq": "lstsq", "numpy.vstack": "vstack", "numpy.hstack": "hstack",
     "numpy.ones": "ones", "numpy.zeros": "zeros", "numpy.unique": "unique", "numpy.isscalar": "isscalar",
     "numpy.argmax": "argmax", "numpy.argmin": "argmin",
     "torch.norm": "norm", "torch.linalg.norm": "norm", "tensorflow.norm": "norm", "numpy.linalg.norm": "norm",
-    "torch.inner": "inner", "numpy.inner": "inner",
+    "torch.inner": "inner", "numpy.inner": "inner", "torch.clone": "asarray", "tensorflow.identity": "asarray",
+    "torch.cat": "concat_", "tensorflow.concat": "concat_",
     "torch.mul": "*", "torch.multiply": "*", "numpy.multiply": "*", "tensorflow.multiply": "*",
     "tensorflow.math.multiply": "*",
     "numpy.add": "+", "torch.add": "+", "tensorflow.add": "+",
@@ -249,7 +261,7 @@ METHOD_ALIASES = {
 }
 ARITH = {"+", "-", "*", "/"}
 # layout / copy operations that do not change the values (transparent in D-ALG only)
-TRANSPARENT_FN = {"squeeze", "ravel", "asarray", "array", "float"}
+TRANSPARENT_FN = {"squeeze", "ravel", "asarray", "array", "float", "atleast_1d", "atleast_2d"}
 TRANSPARENT_METHODS = {"copy", "to_numpy", "detach", "clone", "numpy", "tolist"}
 TRANSPARENT_ATTRS = {"values"}
 INT_LIKE = {"builtins.int", "builtins.float", "numpy.int64", "numpy.float64", "numpy.int32", "numpy.float32"}
